@@ -1,0 +1,233 @@
+//go:build verif
+
+package streampool
+
+import (
+	"encoding/json"
+	"fmt"
+	"os"
+	"sync"
+	"sync/atomic"
+
+	"golang.org/x/exp/slices"
+	"storj.io/drpc"
+)
+
+// Verification hooks (build tag `verif`): a trace emitter for the stream pool. Every event
+// gets a process-wide sequence number; events named in verifLocked are emitted while
+// pool.mu is held and carry the projected pool state (indexes, tags, queue lengths).
+// The sink is called synchronously; it may block only on the events "writeBegin" and
+// "closeBegin", which are emitted outside every lock (they double as scheduling gates).
+
+// VerifStream is the projection of one pooled stream.
+type VerifStream struct {
+	Peer     string   `json:"peer"`
+	Tags     []string `json:"tags"`
+	QueueLen int      `json:"qlen"`
+	QueueCap int      `json:"qcap"`
+}
+
+// VerifState is the projection of the pool taken under pool.mu.
+type VerifState struct {
+	ByPeer  map[string][]uint32    `json:"byPeer"`
+	ByTag   map[string][]uint32    `json:"byTag"`
+	Streams map[string]VerifStream `json:"streams"` // key: decimal stream id
+}
+
+// VerifEvent is one trace event.
+type VerifEvent struct {
+	Seq      uint64       `json:"seq"`
+	BeginSeq uint64       `json:"bseq"` // "write": Seq of the "writeBegin" of the same stream.write call
+	Pool     uint64       `json:"pool"`
+	Ev       string       `json:"ev"`
+	StreamId uint32       `json:"sid"`
+	PeerId   string       `json:"peer"`
+	Tags     []string     `json:"tags"`
+	Msg      string       `json:"msg"`
+	Err      string       `json:"err"`
+	QueueLen int          `json:"qlen"`
+	QueueCap int          `json:"qcap"`
+	State    *VerifState  `json:"state,omitempty"`
+	RawMsg   drpc.Message `json:"-"`
+	RawStrm  drpc.Stream  `json:"-"`
+}
+
+type verifPoolState struct {
+	once sync.Once
+	id   uint64
+}
+
+type verifStreamState struct {
+	mu   sync.Mutex // orders the "write" and "take" events of one stream
+	qcap int        // capacity the queue was created with
+}
+
+var (
+	verifSeq     atomic.Uint64
+	verifPoolSeq atomic.Uint64
+	verifSink    atomic.Pointer[func(ev *VerifEvent)]
+)
+
+// VerifSetSink installs (or, with nil, removes) the event sink.
+func VerifSetSink(f func(ev *VerifEvent)) {
+	if f == nil {
+		verifSink.Store(nil)
+		return
+	}
+	verifSink.Store(&f)
+}
+
+// VerifPoolId returns the id the events of this pool carry.
+func VerifPoolId(p StreamPool) uint64 {
+	return p.(*streamPool).verifId()
+}
+
+// VerifSnapshot returns the projected state of the pool (taken under pool.mu).
+func VerifSnapshot(p StreamPool) VerifState {
+	s := p.(*streamPool)
+	s.mu.Lock()
+	defer s.mu.Unlock()
+	return *s.verifStateLocked()
+}
+
+func (s *streamPool) verifId() uint64 {
+	s.vf.once.Do(func() { s.vf.id = verifPoolSeq.Add(1) })
+	return s.vf.id
+}
+
+func (s *streamPool) verifStateLocked() *VerifState {
+	vs := &VerifState{
+		ByPeer:  make(map[string][]uint32, len(s.streamIdsByPeer)),
+		ByTag:   make(map[string][]uint32, len(s.streamIdsByTag)),
+		Streams: make(map[string]VerifStream, len(s.streams)),
+	}
+	for k, v := range s.streamIdsByPeer {
+		vs.ByPeer[k] = slices.Clone(v)
+	}
+	for k, v := range s.streamIdsByTag {
+		vs.ByTag[k] = slices.Clone(v)
+	}
+	for id, st := range s.streams {
+		tags := slices.Clone(st.tags)
+		if tags == nil {
+			tags = []string{}
+		}
+		vs.Streams[fmt.Sprint(id)] = VerifStream{Peer: st.peerId, Tags: tags, QueueLen: st.queue.Len(), QueueCap: st.vf.qcap}
+	}
+	return vs
+}
+
+func verifMsgKey(msg drpc.Message) string {
+	if msg == nil {
+		return ""
+	}
+	if k, ok := msg.(interface{ VerifKey() string }); ok {
+		return k.VerifKey()
+	}
+	return fmt.Sprintf("%p", msg)
+}
+
+func verifEmit(ev *VerifEvent) uint64 {
+	f := verifSink.Load()
+	if f == nil {
+		return 0
+	}
+	if ev.Tags == nil {
+		ev.Tags = []string{}
+	}
+	ev.Seq = verifSeq.Add(1)
+	seq := ev.Seq
+	(*f)(ev)
+	return seq
+}
+
+func verifTags(tags []string) []string {
+	if tags == nil {
+		return []string{}
+	}
+	return slices.Clone(tags)
+}
+
+// verifAddStream is called with s.mu held, after the stream was entered into the indexes.
+func verifAddStream(s *streamPool, st *stream, queueSize int) {
+	st.vf.qcap = queueSize
+	if verifSink.Load() == nil {
+		return
+	}
+	verifEmit(&VerifEvent{Pool: s.verifId(), Ev: "addStream", StreamId: st.streamId, PeerId: st.peerId,
+		Tags: verifTags(st.tags), QueueCap: queueSize, State: s.verifStateLocked(), RawStrm: st.stream})
+}
+
+// verifPool is called with s.mu held, after the indexes were changed.
+func verifPool(s *streamPool, ev string, st *stream, tags []string) {
+	if verifSink.Load() == nil {
+		return
+	}
+	verifEmit(&VerifEvent{Pool: s.verifId(), Ev: ev, StreamId: st.streamId, PeerId: st.peerId,
+		Tags: verifTags(tags), State: s.verifStateLocked()})
+}
+
+// verifWrite brackets queue.TryAdd in stream.write: "writeBegin" (gate, no lock held), then the
+// per-stream verif mutex is held until "write" (with the result) is emitted, so the "write"
+// events of one stream appear in the order of the adds and before the "take" of the same message.
+// The add itself happened between the sequence numbers BeginSeq and Seq of the "write" event.
+func verifWrite(sr *stream, msg drpc.Message, err *error) func() {
+	if verifSink.Load() == nil {
+		return func() {}
+	}
+	key := verifMsgKey(msg)
+	bseq := verifEmit(&VerifEvent{Pool: sr.pool.verifId(), Ev: "writeBegin", StreamId: sr.streamId, PeerId: sr.peerId, Msg: key, RawMsg: msg})
+	sr.vf.mu.Lock()
+	return func() {
+		ev := &VerifEvent{Pool: sr.pool.verifId(), Ev: "write", StreamId: sr.streamId, PeerId: sr.peerId, Msg: key, RawMsg: msg, QueueLen: sr.queue.Len(), BeginSeq: bseq}
+		if *err != nil {
+			ev.Err = (*err).Error()
+		}
+		verifEmit(ev)
+		sr.vf.mu.Unlock()
+	}
+}
+
+// verifWriter reports the steps of the write loop: "take", "sent", "sendErr".
+func verifWriter(sr *stream, ev string, msg drpc.Message, err error) {
+	if verifSink.Load() == nil {
+		return
+	}
+	e := &VerifEvent{Pool: sr.pool.verifId(), Ev: ev, StreamId: sr.streamId, PeerId: sr.peerId, Msg: verifMsgKey(msg), RawMsg: msg}
+	if err != nil {
+		e.Err = err.Error()
+	}
+	sr.vf.mu.Lock()
+	e.QueueLen = sr.queue.Len()
+	verifEmit(e)
+	sr.vf.mu.Unlock()
+}
+
+// verifClose reports "closeBegin": this goroutine won the closed flag and is about to close the
+// queue, close the stream and remove it from the pool (gate, no lock held).
+func verifClose(sr *stream, ev string) {
+	if verifSink.Load() == nil {
+		return
+	}
+	verifEmit(&VerifEvent{Pool: sr.pool.verifId(), Ev: ev, StreamId: sr.streamId, PeerId: sr.peerId})
+}
+
+// With VERIF_STREAMPOOL_TRACE=<file> every event is appended to the file as one JSON line
+// (used to record the package's own tests).
+func init() {
+	path := os.Getenv("VERIF_STREAMPOOL_TRACE")
+	if path == "" {
+		return
+	}
+	f, err := os.OpenFile(path, os.O_CREATE|os.O_WRONLY|os.O_APPEND, 0o644)
+	if err != nil {
+		panic(err)
+	}
+	var mu sync.Mutex
+	enc := json.NewEncoder(f)
+	VerifSetSink(func(ev *VerifEvent) {
+		mu.Lock()
+		defer mu.Unlock()
+		_ = enc.Encode(ev)
+	})
+}
